@@ -359,12 +359,15 @@ var floatPairs = []pair{
 func genDecode(rc *recorder, r *rng, thorough bool) {
 	exh := 12
 	if thorough {
-		exh = 16
+		exh = 18
 	}
 	ip, fp := 0, 0
 	for size := 1; size <= exh; size++ {
 		nI, nF := 6, 5
-		if size > 12 {
+		if size > 14 {
+			nI, nF = 4, 3
+		}
+		if size > 16 {
 			nI, nF = 2, 2
 		}
 		for _, signed := range []bool{false, true} {
@@ -397,7 +400,7 @@ func genDecode(rc *recorder, r *rng, thorough bool) {
 	}
 	nrand := 24
 	if thorough {
-		nrand = 400
+		nrand = 1000
 	}
 	for size := 1; size <= 64; size++ {
 		for _, signed := range []bool{false, true} {
